@@ -29,6 +29,12 @@ pub enum BOp {
     /// compile_cnf of a small clause list over the builder's current variables (raw variable bytes are scaled
     /// to the current variable count): a diagram that enters the builder by another route than ite
     Cnf(Vec<Vec<(u8, bool)>>),
+    /// compile_logical_expr / compile_plan of a small expression over the current variables, and
+    /// compile_cnf_with_assignments: further routes by which diagrams enter a builder (variable indices are taken
+    /// modulo the current variable count)
+    Expr(crate::exprgen::Ex),
+    Plan(crate::exprgen::Pl),
+    CnfAssign(Vec<Vec<(u8, bool)>>, Vec<Option<bool>>),
 }
 
 impl BOp {
@@ -50,6 +56,9 @@ impl BOp {
             BOp::OrLst(..) => "or_lst",
             BOp::NewVar(..) => "new_var",
             BOp::Cnf(..) => "compile_cnf",
+            BOp::Expr(..) => "compile_logical_expr",
+            BOp::Plan(..) => "compile_plan",
+            BOp::CnfAssign(..) => "compile_cnf_with_assignments",
         }
     }
 }
@@ -106,6 +115,18 @@ pub fn order_keys_strategy() -> impl Strategy<Value = Vec<u16>> {
     ]
 }
 
+/// operand lists for and_lst / or_lst: mostly short, sometimes long, and often of a length next to a power of two or
+/// a multiple of 16 (block-wise implementations have their boundaries there)
+pub fn lst_strategy() -> impl Strategy<Value = Vec<u16>> {
+    prop_oneof![
+        6 => proptest::collection::vec(idx_strategy(), 0..5),
+        2 => proptest::collection::vec(idx_strategy(), 5..13),
+        1 => proptest::collection::vec(idx_strategy(), 13..80),
+        1 => prop_oneof![Just(15usize), Just(16), Just(17), Just(31), Just(32), Just(33), Just(47), Just(48), Just(49), Just(63), Just(64), Just(65)]
+            .prop_flat_map(|n| proptest::collection::vec(idx_strategy(), n)),
+    ]
+}
+
 pub fn bop_strategy() -> impl Strategy<Value = BOp> {
     prop_oneof![
         4 => (any::<u8>(), any::<bool>()).prop_map(|(v, p)| BOp::Lit(v, p)),
@@ -121,10 +142,17 @@ pub fn bop_strategy() -> impl Strategy<Value = BOp> {
             .prop_map(|(a, m)| BOp::CondModel(a, m)),
         3 => (idx_strategy(), any::<u8>()).prop_map(|(a, v)| BOp::Exists(a, v)),
         3 => (idx_strategy(), any::<u8>(), idx_strategy()).prop_map(|(a, v, g)| BOp::Compose(a, v, g)),
-        1 => prop_oneof![3 => proptest::collection::vec(idx_strategy(), 0..5), 1 => proptest::collection::vec(idx_strategy(), 5..13)].prop_map(BOp::AndLst),
-        1 => prop_oneof![3 => proptest::collection::vec(idx_strategy(), 0..5), 1 => proptest::collection::vec(idx_strategy(), 5..13)].prop_map(BOp::OrLst),
+        1 => lst_strategy().prop_map(BOp::AndLst),
+        1 => lst_strategy().prop_map(BOp::OrLst),
         1 => any::<bool>().prop_map(BOp::NewVar),
         1 => proptest::collection::vec(proptest::collection::vec((any::<u8>(), any::<bool>()), 1..=3), 1..=4).prop_map(BOp::Cnf),
+        1 => crate::exprgen::ex_strategy(8, 3).prop_map(BOp::Expr),
+        1 => crate::exprgen::pl_strategy(8, 3).prop_map(BOp::Plan),
+        1 => (
+            proptest::collection::vec(proptest::collection::vec((any::<u8>(), any::<bool>()), 1..=3), 1..=4),
+            proptest::collection::vec(proptest::option::weighted(0.3, any::<bool>()), NV),
+        )
+            .prop_map(|(c, m)| BOp::CnfAssign(c, m)),
     ]
 }
 
@@ -193,7 +221,30 @@ impl<'a, T: IteTable<'a, BddPtr<'a>> + Default> BddRun<'a, T> {
     pub fn step(&mut self, op: &BOp) -> Option<StepOut> {
         let b = self.b;
         let (ptr, tt, args): (BddPtr<'a>, Tt, Vec<usize>) = match op {
-            BOp::Lit(..) | BOp::Cond(..) | BOp::Exists(..) | BOp::Compose(..) | BOp::Cnf(..) if self.n == 0 => return None,
+            BOp::Lit(..) | BOp::Cond(..) | BOp::Exists(..) | BOp::Compose(..) | BOp::Cnf(..) | BOp::Expr(..) | BOp::Plan(..) | BOp::CnfAssign(..) if self.n == 0 => return None,
+            BOp::Expr(e) => {
+                let n = self.n;
+                let e2 = crate::textgen::rename(e, &|v| v % n);
+                (b.compile_logical_expr(&e2.to_logical()), e2.tt(), vec![])
+            }
+            BOp::Plan(pl) => {
+                let pl2 = rename_plan(pl, self.n);
+                (b.compile_plan(&pl2.to_plan()), pl2.tt(), vec![])
+            }
+            BOp::CnfAssign(cl, m) => {
+                let mapped: Vec<Vec<(usize, bool)>> = cl.iter().map(|c| c.iter().map(|(v, p)| (self.v(*v), *p)).collect()).collect();
+                let lits: Vec<Vec<rsdd::repr::Literal>> =
+                    mapped.iter().map(|c| c.iter().map(|(v, p)| rsdd::repr::Literal::new(VarLabel::new_usize(*v), *p)).collect()).collect();
+                let cnf = rsdd::repr::Cnf::new(&lits);
+                let mut t = mapped.iter().fold(Tt::TRUE, |acc, c| acc.and(c.iter().fold(Tt::FALSE, |a, (v, p)| a.or(Tt::lit(*v, *p)))));
+                let mv: Vec<Option<bool>> = (0..self.n).map(|i| m.get(i).copied().flatten()).collect();
+                for (v, x) in mv.iter().enumerate() {
+                    if let Some(val) = x {
+                        t = t.cofactor(v, *val);
+                    }
+                }
+                (b.compile_cnf_with_assignments(&cnf, &PartialModel::from_assignments(&mv)), t, vec![])
+            }
             BOp::Cnf(cl) => {
                 let mapped: Vec<Vec<(usize, bool)>> = cl.iter().map(|c| c.iter().map(|(v, p)| (self.v(*v), *p)).collect()).collect();
                 let lits: Vec<Vec<rsdd::repr::Literal>> =
@@ -373,4 +424,19 @@ macro_rules! with_bdd_builder {
             $go(&b, $($arg),*)
         }
     }};
+}
+
+fn rename_plan(p: &crate::exprgen::Pl, n: usize) -> crate::exprgen::Pl {
+    use crate::exprgen::Pl;
+    let r = |x: &Pl| Box::new(rename_plan(x, n));
+    match p {
+        Pl::Lit(v, pol) => Pl::Lit((*v as usize % n) as u8, *pol),
+        Pl::True => Pl::True,
+        Pl::False => Pl::False,
+        Pl::Not(a) => Pl::Not(r(a)),
+        Pl::And(a, b) => Pl::And(r(a), r(b)),
+        Pl::Or(a, b) => Pl::Or(r(a), r(b)),
+        Pl::Iff(a, b) => Pl::Iff(r(a), r(b)),
+        Pl::Ite(a, b, c) => Pl::Ite(r(a), r(b), r(c)),
+    }
 }
